@@ -298,7 +298,11 @@ pub fn str_to_dec(lit: &str) -> Result<(i128, isize), ParseDecimalError> {
                 }
                 _ => false,
             };
+            let n_exp_leading_zeroes = lit.skip_leading_zeroes();
             let n_exp_digits = lit.accum_exp(&mut exp);
+            if n_exp_leading_zeroes + n_exp_digits == 0 {
+                return Err(ParseDecimalError::Invalid);
+            }
             if exp_is_negative {
                 exp = -exp;
             }
